@@ -45,12 +45,46 @@ Record case := MkCase {
   c_tol : float
 }.
 
+(* Evaluation sharing.  Model.root / nd / alg_sample call gen_root at every entry they compute, and vm_compute does not
+   memoise: a Cholesky leaf under Block / SumBatch nodes was refactorised once per entry of the root table (one quick
+   cell took 105 s).  norm replaces the root kind of every generic leaf by the root gen_root returns for it, computed
+   ONCE (RGiven r R); by norm_rk_root the leaf's gen_root — the only thing root / nd / alg_sample / noise_shapes read
+   from a leaf's root kind — is unchanged. *)
+Section Norm.
+Variables (F : Type) (ar : Arith F) (st : sett).
+
+Definition norm_rk (B n : nat) (A : seq F) (rk : rootkind F) : rootkind F :=
+  if ciq_on st || (n == 1) then rk
+  else match gen_root ar st B n A rk with Some (r, R) => RGiven r R | None => rk end.
+
+Lemma norm_rk_root B n A rk : gen_root ar st B n A (norm_rk B n A rk) = gen_root ar st B n A rk.
+Proof.
+rewrite /norm_rk; case hc: (ciq_on st) => //=; case hn: (n == 1) => //=.
+rewrite /gen_root /gen_method hc hn.
+case: rk => [lz|r R] //=.
+case: ifP => _ //=.
+by case: lz => [[r R]|].
+Qed.
+
+Fixpoint norm (e : sx F) : sx F :=
+  match e with
+  | SGen bs n A rk => SGen bs n A (norm_rk (prodn bs) n A rk)
+  | SBlockDiag bs nb c => SBlockDiag bs nb (norm c)
+  | SBlockInter bs nb c => SBlockInter bs nb (norm c)
+  | SSumBatch bs nb c => SSumBatch bs nb (norm c)
+  | SInterp bs m q li lv ri rv c => SInterp bs m q li lv ri rv (norm c)
+  | SAdd l r => SAdd (norm l) (norm r)
+  | _ => e
+  end.
+End Norm.
+
 (* 0 = agreement; otherwise the first failing comparison:
    1 wf   2 randn shapes   3 output shape   4 model has no value   5 draws   6 root   7 dense meaning *)
 Definition check (c : case) : nat :=
-  let st := c_st c in let e := c_e c in let k := c_k c in
-  if ~~ wf ArF st e then 1
-  else if ~~ shapes_agree (noise_shapes ArF st k e) (c_shapes c) then 2
+  let st := c_st c in let e0 := c_e c in let k := c_k c in
+  if ~~ wf ArF st e0 then 1 else
+  let e := norm ArF st e0 in
+  if ~~ shapes_agree (noise_shapes ArF st k e) (c_shapes c) then 2
   else if ~~ (out_shape k e == c_out_shape c) then 3
   else if ~~ all_close (c_tol c) (den_tab ArF e) (c_den c) then 7
   else if c_opaque c then 0
